@@ -33,6 +33,7 @@ type Solver struct {
 	flatRef      string
 	flatModelTxt string
 	flatUsed     bool
+	skipPop      bool
 	nFlat        int
 
 	nCheck, nSat, nUnsat, nUnknown int
@@ -302,12 +303,26 @@ func (s *Solver) Check(extra *Term) string {
 		s.nUnknown++
 		s.lastErr = strings.Join(lines, " | ")
 		if bad || r == "" {
-			// an error line or an unexpected reply: the stream may be out of step -> never trust it again
-			s.poisoned = true
+			// an error line or an unexpected reply (typically the late "push canceled" of an earlier
+			// timed-out query): the stream cannot be trusted. Replace the process, replay the path and
+			// decide this query in a fresh flat run.
+			s.rebuild()
+			if fr := s.flatSolve(ref, nil); fr == "sat" || fr == "unsat" {
+				s.nUnknown--
+				if fr == "sat" {
+					s.nSat++
+				} else {
+					s.nUnsat++
+				}
+				return fr
+			}
 			return "unknown"
 		}
 		// z3's incremental core gives up on queries that its non-incremental tactics decide at once:
 		// re-solve the whole path as one flat script in a fresh process before reporting unknown.
+		// After a timeout z3 answers the next command with "push canceled", so the incremental
+		// process is replaced and the path's assertions are replayed into the new one.
+		s.rebuild()
 		if fr := s.flatSolve(ref, nil); fr == "sat" || fr == "unsat" {
 			s.nUnknown--
 			r = fr
@@ -325,10 +340,34 @@ func (s *Solver) Check(extra *Term) string {
 
 // PopCheck closes the scope opened by Check.
 func (s *Solver) PopCheck() {
-	if !s.poisoned {
+	if !s.poisoned && !s.skipPop {
 		s.send("(pop 1)")
 	}
+	s.skipPop = false
 	s.inQuery = false
+}
+
+// rebuild replaces the solver process and replays the current path's declarations and assertions.
+func (s *Solver) rebuild() {
+	log := append([]string(nil), s.pathLog...)
+	was := s.inPath
+	s.Close()
+	s.nRestart++
+	if err := s.start(); err != nil {
+		panic(engineErr("solver restart failed: %v", err))
+	}
+	if was {
+		s.inQuery = true // do not re-log
+		s.send("(push 1)")
+		for _, l := range log {
+			s.send(l)
+		}
+		s.inQuery = false
+		s.inPath = true
+	}
+	s.pathLog = log
+	s.skipPop = true
+	s.inQuery = true
 }
 
 // flatSolve runs the current path's assertions plus extraRef in a fresh one-shot solver process.
